@@ -139,3 +139,8 @@ Fixpoint chosen_status (ops : list op) : option nat :=
   | WriteHeader c :: _ => Some c
   | _ :: _ => Some 200
   end.
+
+(* ---- Decompress (middleware/decompress.go): a request body labelled "Content-Encoding: gzip" reaches the handler
+   gunzipped (an empty body stays empty); every other body is untouched.  [gunzip] is compress/gzip's reader (oracle). *)
+Definition decompress (is_gzip : bool) (sent : bytes) (gunzip : bytes -> option bytes) : option bytes :=
+  if is_gzip then match sent with [] => Some [] | _ => gunzip sent end else Some sent.
